@@ -93,7 +93,18 @@ def c08(tier):
         trusted=["the four built binaries; go/packages; singlechecker's -json and -flags output formats"])
 
 
-CHECKS = {"C06": c06, "C08": c08, "C14": c14, "C17": c17, "C18": c18, "C15": c15, "C16": c16, "C19": c19}
+def c04(tier):
+    vlib.standard(
+        "C04", tier, "c04", ["Properties_C04.v", "Proofs_Sched.v"],
+        assume=[
+            "a worker's result is a function of the shared read-only inputs only, and a worker writes only its own checker context and result slot (the footprint abstraction; its truth for the real checkers is C05's subject)",
+            "channel, WaitGroup and mutex operations are synchronisation primitives with their documented semantics",
+            "STATED LIMIT: actual memory accesses of the compiled program are not modelled; a data race in code the footprints do not mention can only be exhibited by the race-detector runs, never excluded by the theorems",
+        ],
+        trusted=["Go race detector builds of go-critic and go-critic-analysis; x/tools analysis driver's -debug=p sequential mode"])
+
+
+CHECKS = {"C04": c04, "C06": c06, "C08": c08, "C14": c14, "C17": c17, "C18": c18, "C15": c15, "C16": c16, "C19": c19}
 
 
 def run(prop, tier):
